@@ -230,6 +230,8 @@ class C16(BaseMonitor):
                     self.stop = "op_raised"
                     return "raised"
             op = {k_: v for k_, v in op.items() if k_ != "before"}
+        if op["op"] == "cross_system":
+            return self.step_cross_system(i, op)
         before = self.live_links()
         sim.expect = None
         status, ret = self.execute(op)
@@ -279,6 +281,28 @@ class C16(BaseMonitor):
                                 f"{sim.expect['ret']}", i, op_kind(op))
         self.check_links(i, op)
         return "ok"
+
+    def step_cross_system(self, i, op):
+        """'An object can never end up in two systems', through link edits between two computed systems.  Terminal
+        op of a run (the spec-level link model describes one system)."""
+        sim = self.sim
+        st, rt = self.execute({"op": "clone_system", "suffix": op["suffix"]})
+        if st != "ok":
+            self.stop = "op_raised"
+            return "raised"
+        status, ret = self.execute(op)
+        self.res.count("fault:cross_system_" + op["attr"])
+        self.stop = "two_system_probe_done"
+        in_two = sorted(n for n, o in sim.world.objs.items() if len(o.systems) > 1)
+        if in_two:
+            raise Violation("C16", "object_in_two_systems",
+                            {self.cls_of(op["target"].replace(op["suffix"], "")) + "." + op["attr"]},
+                            f"{op['target']}.{op['attr']} {op['method']} {op['arg']} "
+                            f"{'was accepted' if status == 'ok' else 'raised ' + type(ret).__name__}: now linked to two "
+                            f"systems: {in_two[:8]}", i, op_kind(op))
+        if status == "hang":
+            raise Violation("C16", "hang", {ret.site}, f"cross-system edit does not return in {ret.site}", i, op_kind(op))
+        return "refused" if status == "raised" else "ok"
 
     def check_links(self, i, op):
         sim = self.sim
